@@ -55,3 +55,38 @@ PLANS["C02"] = {
         "the same row object is never added to a table twice (not generated)",
     ],
 }
+
+PLANS["C18"] = {
+    "facets": "none",
+    "own": [],
+    "mc": [{
+        "module": "MCMetrics",
+        "quick": dict(MaxLen=5),
+        "thorough": dict(MaxLen=7),
+        "subst": {"quick": [{"n": 1}, {"n": 2}], "thorough": [{"n": k} for k in range(1, 9)]},
+    }],
+    "random": [{"gen": gens.gen_metrics}],
+    "min_scenarios": {"quick": 1000, "thorough": 20000},
+    "assumptions": [
+        "display width is the library's own measure (logged, not modelled)",
+        "the driver's tokenisation (chunks free of line feeds joined with line feeds) is faithful",
+    ],
+}
+
+PLANS["C01"] = {
+    "facets": "text",
+    "mc": [{
+        "module": "MCItems",
+        "quick": dict(MaxHist=6),
+        "thorough": dict(MaxHist=6),
+        "properties": ["TextStable"],
+        "subst": {"quick": [{"n": 1}, {"n": 2}], "thorough": [{"n": k} for k in range(1, 21)]},
+    }],
+    "random": [{"gen": gens.gen_items}],
+    "min_scenarios": {"quick": 500, "thorough": 5000},
+    "assumptions": [
+        "the dispatch depends only on (kind, capability set); all 32 capability sets and all kinds are enumerated, the space of dynamic Go types is sampled",
+        "for the last arm the oracle is fmt's %v itself (logged by the driver), as the statement names it",
+        "the static table of which pool values offer String/Error (items.go: otherCaps) is right",
+    ],
+}
